@@ -141,7 +141,8 @@ impl Check for C10 {
             let mut k = rng.sub("sortknobs");
             let table = match k.below(4) {
                 0 | 1 => TableKind::Real,
-                2 => TableKind::Shifted((0..4).map(|_| k.range(0, 200_000_000) as i64 - 100_000_000).collect()),
+                // i64::MAX / i64::MIN stand for the start times u64::MAX (what a merged-away lifecycle carries) and 0
+                2 => TableKind::Shifted((0..4).map(|_| match k.below(12) { 0 => i64::MAX, 1 => i64::MIN, _ => k.range(0, 200_000_000) as i64 - 100_000_000 }).collect()),
                 _ => TableKind::Empty,
             };
             Case::Perm {
@@ -196,7 +197,7 @@ impl Check for C10 {
                                     }
                                     let mut lc: Lifecycle = rd.get_one(id).unwrap().clone();
                                     let o = offs[i % offs.len()];
-                                    lc.start_time = (lc.start_time as i64 + o).max(0) as u64;
+                                    lc.start_time = if o == i64::MAX { u64::MAX } else if o == i64::MIN { 0 } else { (lc.start_time as i64 + o).max(0) as u64 };
                                     w2.insert(*id, lc);
                                 }
                             }
@@ -354,7 +355,7 @@ impl Check for C10 {
         out
     }
     fn rule() -> &'static str {
-        "two kinds of runs: (perm) a simulated world (as C05) through the real lifecycle stage and then the real sorter with the real table, a shifted/partial stale table or an empty table, window in {1,2,3,10,255} s, minimum delay in {0, 1 ms, 2 s, 20 s}: output must be a permutation with every message unchanged; (order) 1-3 ECUs x 1-3 lifecycles with given start times, reception times never decreasing (ties included), per-message buffering delay within the configured minimum (incl. exactly at the bound and 'negative' = capped), control requests interspersed: output must be ordered by (calculated time, original position); precondition re-checked on the concrete case; non-trivial = the sorter had to move at least one message / more than one message; distinct = hash of the case"
+        "two kinds of runs: (perm) a simulated world (as C05) through the real lifecycle stage and then the real sorter with the real table, a shifted/partial stale table (start times moved by up to 100 s, or set to 0 or u64::MAX) or an empty table, window in {1,2,3,10,255} s, minimum delay in {0, 1 ms, 2 s, 20 s}: output must be a permutation with every message unchanged; (order) 1-3 ECUs x 1-3 lifecycles with given start times, reception times never decreasing (ties included), per-message buffering delay within the configured minimum (incl. exactly at the bound and 'negative' = capped), control requests interspersed: output must be ordered by (calculated time, original position); precondition re-checked on the concrete case; non-trivial = the sorter had to move at least one message / more than one message; distinct = hash of the case"
     }
     fn assumptions() -> Vec<&'static str> {
         vec!["calculated time as stated: min(lifecycle start + timestamp, reception time), reception time for control requests; lifecycle start taken from the table handed to the sorter"]
